@@ -128,6 +128,9 @@ func (e *Env) eval(x Expr) SV {
 	case EIndex:
 		base := e.eval(n.X)
 		idx := e.eval(n.I)
+		if p, isPt := idx.(Pt); isPt && p.Kind == "heap" { // x-c17: ghost arrays indexed by a pointer (its reference)
+			idx = Sc{"Int", p.Ref}
+		}
 		switch b := base.(type) {
 		case Sl:
 			return vc.readElem(e.st, b, idx.(Sc).T)
@@ -305,6 +308,14 @@ func (e *Env) ident(name string) SV {
 	}
 	if g, ok := e.ghost(name); ok {
 		return g
+	}
+	if v := e.guardedGlobalIdent(name); v != nil { // onceinv.go (x-c17): guarded package-level variables
+		return v
+	}
+	if e.local && e.header != nil {
+		if v := vc.tolerantLocal(name, e.header, e.st); v != nil { // tolerant.go: renamed local, for <-> range
+			return v
+		}
 	}
 	if e.from != nil {
 		panic(unresolved(name))
@@ -587,6 +598,9 @@ func (e *Env) nilEq(v SV) string {
 	case Sl:
 		return sEq(x.Ref, "0")
 	case Pt:
+		if x.Kind != "heap" { // x-c09: &slice[i], &local, &global are never nil (their Ref is empty)
+			return "false"
+		}
 		return sEq(x.Ref, "0")
 	case mapSV:
 		return sEq(x.ref, "0")
@@ -660,6 +674,8 @@ func (e *Env) call(n ECall) SV {
 		return e.fnApply(n) // fnapply.go (w-c05)
 	case "lastcall":
 		return e.lastCall(n)
+	case "settled":
+		return e.settledSpec(n) // onceinv.go (x-c17)
 	case "captured":
 		return e.capturedSpec(n) // captproj.go (x-c17)
 	case "fnval":
